@@ -2,29 +2,5 @@
 
 package hack
 
-import "net"
-
-// Export shim for check C04 (no logic): the complete private state of a
-// HijackClientHelloConn apart from the wrapped conn and the log func is
-// (bytes held in buf, expectedLen).
-
-// verifC04Int lets the shim compile whatever integer type expectedLen has.
-type verifC04Int interface {
-	~int | ~int16 | ~int32 | ~int64 | ~uint | ~uint16 | ~uint32 | ~uint64
-}
-
-func verifC04Get[T verifC04Int](v T) int64     { return int64(v) }
-func verifC04Set[T verifC04Int](p *T, v int64) { *p = T(v) }
-
-// VerifC04Snapshot returns a copy of the accumulated bytes and expectedLen.
-func (c *HijackClientHelloConn) VerifC04Snapshot() (buf []byte, expectedLen int64) {
-	return append([]byte(nil), c.buf.Bytes()...), verifC04Get(c.expectedLen)
-}
-
-// VerifC04Restore builds a wrapper around conn whose private state is the given snapshot.
-func VerifC04Restore(conn net.Conn, buf []byte, expectedLen int64) *HijackClientHelloConn {
-	c := NewHijackClientHelloConn(conn)
-	c.buf.Write(buf)
-	verifC04Set(&c.expectedLen, expectedLen)
-	return c
-}
+// Check C04 copies and keys a HijackClientHelloConn by reflection over every field it has (verif/deep), so nothing here
+// names a private field: a refactoring that renames or adds fields is followed without a change to the harness.
